@@ -90,6 +90,46 @@ func (m *Model) Restrictions(typ, rel string) []*openfgav1.RelationReference {
 	return td.GetMetadata().GetRelations()[rel].GetDirectlyRelatedUserTypes()
 }
 
+// ReachesRecursion reports whether the relation-level dependency graph, starting at typ#rel, reaches
+// a relation that depends on itself (directly or through other relations).
+func (m *Model) ReachesRecursion(typ, rel string) bool {
+	seen := map[string]bool{}
+	var walk func(k string) bool
+	walk = func(k string) bool {
+		if seen[k] {
+			return false
+		}
+		seen[k] = true
+		i := strings.Index(k, "#")
+		t, r := k[:i], k[i+1:]
+		us := m.Rewrite(t, r)
+		if us == nil {
+			return false
+		}
+		var es []depEdge
+		m.deps(t, us, false, &es, r)
+		for _, e := range es {
+			if e.to == k {
+				return true
+			}
+			if si, ok := m.sccOf[e.to]; ok && len(m.order[si]) > 1 {
+				return true
+			}
+			if walk(e.to) {
+				return true
+			}
+		}
+		return false
+	}
+	if si, ok := m.sccOf[RelKey(typ, rel)]; ok && len(m.order[si]) > 1 {
+		return true
+	}
+	return walk(RelKey(typ, rel))
+}
+
+// IsTupleset reports whether type#relation is used as the tupleset of some tuple-to-userset rewrite.
+func (m *Model) IsTupleset(typ, rel string) bool { return m.tuplesets[RelKey(typ, rel)] }
+
 // RelationNames returns the sorted relation names of a type.
 func (m *Model) RelationNames(typ string) []string {
 	td := m.Types[typ]
